@@ -273,9 +273,48 @@ pub fn run(tier: &str) -> Result<Report, String> {
             rep.sample(json!({"formula": f.show(&ctx.user), "rewrites": rw.len(), "examples": [rw[7].1, rw[rw.len() / 2].1, rw[rw.len() - 3].1]}));
         }
     }
+    // networks whose variable NAMES interact with the tokenizer (operator look-alikes EF1 / TRUE, spare-variable-like names, a
+    // name that is a prefix of another, HCTL-variable-like names): what a rewrite does to the text next to such a name (no white
+    // space where legal, parentheses directly around it) must not change the meaning either
+    {
+        let mut named = name_nets(3)?;
+        named.push(Arc::new(bind("opn3", &crate::nets::spec("EGFR -> AXIN; AXIN -| EGFR; EGFR -?? AUX1; AUX1 -?? AUX1"), 3)?));
+        for b in named {
+            let fams = crate::sweep::label_families(&b, 1);
+            let ctx = NetCtx::new(b.clone(), fams[0].1.clone(), &fams[0].0);
+            let fs = Gen::new(Alphabet::all_ops(ctx.nprops(), 2)).closed_up_to(if tier == "quick" { 3 } else { 4 });
+            let res: Vec<(u64, u64, Option<Violation>)> = fs
+                .par_iter()
+                .map(|f| {
+                    let (n, d, bad) = check(&ctx, f, rich);
+                    let v = if bad.is_empty() {
+                        None
+                    } else {
+                        Some(Violation {
+                            case: json!({"kind": "rewrite", "net": ctx.b.spec, "aeon": ctx.b.aeon, "labels": {"wild": ctx.labels.wild, "dom": ctx.labels.dom}, "formula": f, "text": f.show(&ctx.user)}),
+                            what: format!("formula {} on {} [{}]: {}", f.show(&ctx.user), ctx.b.name, ctx.b.aeon.replace('\n', "; "), bad.join(" | ")),
+                            size: f.size(),
+                        })
+                    };
+                    (n, d, v)
+                })
+                .collect();
+            for (n, d, v) in res {
+                total_rewrites += n;
+                distinct_rewrites += d;
+                if let Some(v) = v {
+                    rep.add_count("failing_formulae", 1);
+                    if rep.violations.len() < 100 {
+                        rep.violations.push(v);
+                    }
+                }
+            }
+            rep.add_count("formulae_x_networks_with_unusual_names", fs.len() as u64);
+        }
+    }
     rep.evaluations = total_rewrites;
     rep.distinct_nontrivial = distinct_rewrites;
-    rep.rule = format!("for every closed plain formula with <= {m} nodes, every template formula, the family Q1{{x}}: ((Q2{{y}}: A) op B) and its jump version @{{x}}: ((@{{y}}: A) op B), all chains of two binary operators in both association orders, duplicate templates and every extended formula with <= 3 nodes, on {which:?}: all scope-respecting assignments of the names {POOL:?} to its binders (consistent renaming incl. permutations of the internal names x, xx, xxx) and of the names {ODD_POOL:?} and {KEYWORD_POOL:?}, renamings of binders to the names of network variables, whitespace patterns (none where legal, double, tab, newline, NBSP, mixed; everywhere and at each single token boundary), 1-2 redundant parentheses around each sub-formula and around all, the minimal-parentheses rendering and the minimal rendering with one sub-formula keeping its parentheses, long spellings of each/all hybrid operators, constant spellings; the rewritten text must evaluate (model_check_formula / model_check_extended_formula_dirty) to the same set as the canonical text. distinct_nontrivial = number of rewritten texts that differ from the canonical text and from each other (per formula and network), counted with a hash set; evaluations additionally counts the canonical text");
+    rep.rule = format!("for every closed plain formula with <= {m} nodes, every template formula, the family Q1{{x}}: ((Q2{{y}}: A) op B) and its jump version @{{x}}: ((@{{y}}: A) op B), all chains of two binary operators in both association orders, duplicate templates and every extended formula with <= 3 nodes, on {which:?} (and every closed formula with <= 3 (4) nodes on seven networks whose variable names look like operators / constants / spare variables / each other's prefixes: EF1, TRUE, EGFR, AXIN, AUX1, Ca_extra_cell, x / xx, a / ab): all scope-respecting assignments of the names {POOL:?} to its binders (consistent renaming incl. permutations of the internal names x, xx, xxx) and of the names {ODD_POOL:?} and {KEYWORD_POOL:?}, renamings of binders to the names of network variables, whitespace patterns (none where legal, double, tab, newline, NBSP, mixed; everywhere and at each single token boundary), 1-2 redundant parentheses around each sub-formula and around all, the minimal-parentheses rendering and the minimal rendering with one sub-formula keeping its parentheses, long spellings of each/all hybrid operators, constant spellings; the rewritten text must evaluate (model_check_formula / model_check_extended_formula_dirty) to the same set as the canonical text. distinct_nontrivial = number of rewritten texts that differ from the canonical text and from each other (per formula and network), counted with a hash set; evaluations additionally counts the canonical text");
     rep.assumptions.push("the rewrite generator only produces meaning-preserving variants by construction (consistent renaming respecting scopes, whitespace only between tokens, balanced extra parentheses)".into());
     Ok(rep)
 }
